@@ -366,6 +366,8 @@ class QCow2Snapshot:
 
     def open(self) -> QCow2:
         disk = copy.copy(self.qcow2)
+        # The copy must not inherit the position and alignment buffer of the live stream
+        AlignedStream.__init__(disk, disk.size)
         disk.l1_table = self.l1_table
         disk.seek(0)
         return disk
